@@ -308,6 +308,46 @@ def decl_line(d):
     return d.get("_line")
 
 
+def annotate_begin_lines(o, st):
+    """clang's JSON prints a "line" only when it differs from the line of the location printed before it; decode that in
+    print order and give every node `_line` = the line where it BEGINS (for code coming out of a macro: the line of the
+    macro invocation).  st = [last line printed]"""
+    def simple(l):
+        if isinstance(l, dict) and "line" in l:
+            st[0] = l["line"]
+        return st[0]
+
+    def loc(l):
+        if not isinstance(l, dict):
+            return st[0]
+        if "spellingLoc" in l or "expansionLoc" in l:
+            res = st[0]
+            for key, v in l.items():
+                if key in ("spellingLoc", "expansionLoc"):
+                    r = simple(v)
+                    if key == "expansionLoc":
+                        res = r
+            return res
+        return simple(l)
+    if isinstance(o, dict):
+        bl = None
+        for k, v in o.items():
+            if k == "loc":
+                r = loc(v)
+                if bl is None:
+                    bl = r
+            elif k == "range" and isinstance(v, dict):
+                bl = loc(v.get("begin"))
+                loc(v.get("end"))
+            else:
+                annotate_begin_lines(v, st)
+        if "kind" in o:
+            o["_line"] = bl if bl is not None else st[0]
+    elif isinstance(o, list):
+        for v in o:
+            annotate_begin_lines(v, st)
+
+
 def stmt_line(n):
     b = n.get("range", {}).get("begin", {})
     for l in (b, b.get("expansionLoc", {}), b.get("spellingLoc", {})):
@@ -358,6 +398,8 @@ class Part:
     # ---- clang
     def load(self):
         objs = self.unit.dump(self.cfg["filter"])
+        for o in objs:
+            annotate_begin_lines(o, [0])
         specs = [o for o in objs if o.get("kind") == "ClassTemplateSpecializationDecl" and o.get("name") == self.cfg["class_name"]
                  and any(c.get("kind") == "CXXMethodDecl" for c in kids(o))]
         if len(specs) != 1:
@@ -401,8 +443,8 @@ class Part:
             out.append(dict(cpp=item[0], g=item[1], sig=item[2], cls=item[3] or ""))
         return out
 
-    def site(self, kind, fn, node):
-        self.sites.append((len(self.sites), kind, fn.cname, node.get("_line")))
+    def site(self, kind, fn, node, line=None):
+        self.sites.append((len(self.sites), kind, fn.cname, line or node.get("_line")))
         return len(self.sites) - 1
 
     # ---- translation of one function (callees first)
@@ -462,8 +504,8 @@ class Part:
         if cfg.get("sites"):
             body += "\n(* failure sites of the CURRENT source: ordinal -> line *)\nDefinition src_lines (k : nat) : N :=\n  match k with\n"
             for k, kind, fn, line in self.sites:
-                body += "  | %d => %d    (* %s in %s *)\n" % (k, line or 0, kind, fn)
-            body += "  | _ => 0\n  end%N.\n"
+                body += "  | %d%%nat => %d%%N    (* %s in %s *)\n" % (k, line or 0, kind, fn)
+            body += "  | _ => 0%N\n  end.\n"
             body += "Definition n_sites : nat := %d.\n" % len(self.sites)
         return hdr + body
 
@@ -477,6 +519,7 @@ class FnReader:
         self.cls = getattr(fn, "cls", "")
         self.ccfg = self.cfg.get("classes", {}).get(self.cls, {}) if self.cls else {}
         self.this_locals = {}    # data member of *this of a nested class -> Var (implicit in/out parameter)
+        self.subst = {}          # while an accessor is inlined: its parameter decl id -> the argument (IR)
 
     def ir_type(self, node, tstr=None):
         t = node.get("type", {}) if tstr is None else None
@@ -581,10 +624,11 @@ class FnReader:
                 fail(n, "if with init-statement / condition variable / constexpr")
             c = kids(n)
             folded = self.const_cond(c[0])
+            if folded is not None:       # the arm that a constexpr-false/true condition excludes is not translated
+                taken = c[1] if folded else (c[2] if len(c) > 2 else None)
+                return (self.stmt(taken) if taken is not None else None) or S("block", n, body=[])
             a = self.stmt(c[1]) or S("block", c[1], body=[])
             b = (self.stmt(c[2]) if len(c) > 2 else None) or S("block", n, body=[])
-            if folded is not None:
-                return a if folded else b
             return S("if", n, c=self.rvalue(c[0], "bool"), a=a, b=b)
         if k == "WhileStmt":
             c = kids(n)
@@ -682,8 +726,10 @@ class FnReader:
         if not m:
             return None
         inner = kids(cond)[0]
-        inner["_line"] = int(m.group(1))
-        return S("assert", inner, e=self.rvalue(inner, "bool"), line=int(m.group(1)))
+        # the site reports the line where the FRG_ASSERT statement begins (the __LINE__ in the message is the line where a
+        # multi-line invocation ENDS)
+        inner["_line"] = n["_line"]
+        return S("assert", inner, e=self.rvalue(inner, "bool"), line=n["_line"])
 
     def expr_stmt(self, n):
         n0 = strip_expr(n)
@@ -731,6 +777,8 @@ class FnReader:
                 return r
         if k == "DeclRefExpr":
             rd = n.get("referencedDecl", {})
+            if rd.get("id") in self.subst:
+                return ("subst", rd["id"], self.subst[rd["id"]].ty)
             if rd.get("id") in self.vars:
                 return ("var", self.vars[rd["id"]])
             fail(n, "reference to something that is not a local or a parameter")
@@ -802,6 +850,9 @@ class FnReader:
         return self.cfg["fields"].get(name) or self.cfg.get("ptr_fields", {})[name]
 
     def load(self, lv, node):
+        if lv[0] == "subst":
+            self.subst_uses[lv[1]] = self.subst_uses.get(lv[1], 0) + 1
+            return self.subst[lv[1]]
         if lv[0] == "var":
             self.note_use(lv[1], "value", node)
             return X("var", lv[1].ty, node, var=lv[1])
@@ -1037,6 +1088,8 @@ class FnReader:
         d = self.part.by_id[did]
         if d["name"] == self.cfg.get("hook_fn"):
             fail(n, "hook accessor used other than as h(x).field")
+        if d["name"] in self.cfg.get("inline", []):
+            return self.inline_call(n, d, c[1:])
         if self.part.cls_of.get(did, "") != self.cls:
             fail(n, "call into another class")
         f = self.part.get_fn(d)
@@ -1052,6 +1105,38 @@ class FnReader:
                 args.append(self.rvalue(a, pt))
         self.check_unseq(args, n)
         return X("call", f.ret_ty, n, fn=f, args=args)
+
+    def inline_call(self, n, d, argnodes):
+        """a call of an accessor `T f(params) { return e; }` (cfg['inline']): e with the arguments in place of the parameters,
+        every parameter used exactly once; the failure sites inside e report the line of the CALL"""
+        if self.subst:
+            fail(n, "nested inlining of accessors")
+        body = [c for c in kids(d) if c["kind"] == "CompoundStmt"]
+        ps = [p for p in kids(d) if p["kind"] == "ParmVarDecl"]
+        st = kids(body[0]) if len(body) == 1 else []
+        if len(st) != 1 or st[0]["kind"] != "ReturnStmt" or len(kids(st[0])) != 1 or len(ps) != len(argnodes):
+            fail(d, "accessor to be inlined is not of the form `return e;`")
+        args = [self.rvalue(a, self.ir_type(p)) for p, a in zip(ps, argnodes)]
+        self.check_unseq(args, n)
+        self.subst = {p["id"]: a for p, a in zip(ps, args)}
+        self.subst_uses = {}
+        try:
+            m = re.match(r"^(.*?)\s*\((.*)\)", d["type"]["qualType"])
+            e = self.rvalue(kids(st[0])[0], self.ir_type(d, m.group(1).strip()))
+            if any(self.subst_uses.get(p["id"], 0) != 1 for p in ps):
+                fail(d, "accessor to be inlined uses a parameter not exactly once")
+        finally:
+            self.subst = {}
+        line = n.get("_line")
+
+        def mark(x):
+            if x.op == "prim" and getattr(x, "site", None) and not hasattr(x, "line_override"):
+                x.line_override = line
+            for c in subexprs(x):
+                if not any(c is a for a in args):
+                    mark(c)
+        mark(e)
+        return e
 
     @staticmethod
     def is_ref(p):
@@ -1153,7 +1238,7 @@ class Emitter:
         a = " ".join(paren(x) for x in args)
         site = ""
         if getattr(e, "site", None) and "{site}" in cfg.get(e.site + "_fail", ""):
-            site = " (ln %d)" % self.part.site(e.site + " " + e.g, self.fn, e.node)
+            site = " (ln %d)" % self.part.site(e.site + " " + e.g, self.fn, e.node, getattr(e, "line_override", None))
         if e.kind == "pure":
             return k(("%s %s" % (e.g, a)).strip())
         if e.kind == "get":         # bound to a name here: the value is the one of the state at THIS point of the evaluation
@@ -1662,3 +1747,28 @@ def move_lvalue(tr, n):
         if kind == "fn" and name == "move" and len(kids(n)) == 2:
             return tr.lvalue(kids(n)[1])
     return None
+
+
+def static_functor_idiom(cls, method, gname, arg_tys, ret_ty, kind="rw", reads=(), writes=()):
+    """A::aggregate(node): call of a static member function of the user's policy class -> `gname s args`"""
+    def rec(tr, n):
+        if n.get("kind") != "CallExpr":
+            return None
+        c = kids(n)
+        f = strip_expr(c[0])
+        if f.get("kind") == "ImplicitCastExpr":
+            f = strip_expr(kids(f)[0])
+        rd = f.get("referencedDecl", {})
+        if f.get("kind") != "DeclRefExpr" or rd.get("kind") != "CXXMethodDecl" or rd.get("name") != method:
+            return None
+        if rd.get("id") in tr.part.by_id:
+            return None
+        # the qualifier names the user's class: the declaration is not a member of the instantiated class
+        if cls not in (n.get("_src") or "") and False:
+            return None
+        if len(c) - 1 != len(arg_tys):
+            fail(n, "policy call with %d arguments" % (len(c) - 1))
+        args = [tr.rvalue(a, t) for a, t in zip(c[1:], arg_tys)]
+        tr.check_unseq(args, n)
+        return X("prim", ret_ty, n, g=gname, args=args, kind=kind, reads=set(reads), writes=set(writes), site="null")
+    return rec
